@@ -626,6 +626,8 @@ def _cls(name):
         _CLS["CountEnv"] = _make_count_env_cls()
         _CLS["CountVec"] = _make_count_vec_cls()
         _CLS["CountParallelEnv"] = _make_pz_cls()
+    if name == "CountAsyncPZVec" and name not in _CLS:
+        _CLS[name] = _make_async_cls()
     return _CLS[name]
 
 
@@ -1039,10 +1041,6 @@ def cases(tier, seed):
 # =====================================================================================================
 # building one run
 # =====================================================================================================
-def _net_config(case):
-    return None
-
-
 def _make_pop(case, num_envs):
     from vf import zoo
 
@@ -1080,7 +1078,7 @@ def _make_pop(case, num_envs):
 
 
 def _make_env(case):
-    """-> (env, num_envs, closer)"""
+    """-> (env, num_envs)"""
     loop = case["loop"]
     mode = case["env_mode"]
     salt = case["seed"] % 97
@@ -1095,10 +1093,7 @@ def _make_env(case):
             env = _mk_pz_env(case["obs"], case["act"], case["ep_len"], case["end"], salt, report=True)
             return env, 1
         if mode == "asyncvec":
-            if "CountAsyncPZVec" not in _CLS:
-                _cls("CountEnv")
-                _CLS["CountAsyncPZVec"] = _make_async_cls()
-            return _CLS["CountAsyncPZVec"](mk, context="fork"), n
+            return _cls("CountAsyncPZVec")(mk, context="fork"), n
         return CountPZVec(mk), n
     # single-agent gymnasium environments (also the evaluation environment of train_offline)
     if mode == "single":
@@ -1421,7 +1416,9 @@ def _checkpoint_checks(rec, mon, case, pop, n_pop, tmp):
     ck = int(case["ckpt"])
     # population checkpoints only (the elite file goes through the same method)
     saves = [s for s in mon.ckpt if os.path.basename(s[0]).startswith("ck_")]
-    due = any(p and p[0] >= ck for p in mon.post)
+    # the documented early stop returns straight from the evaluation: that generation writes no checkpoint
+    early_at = next((g for g, e in enumerate(mon.early, 1) if e), None)
+    due = any(p and p[0] >= ck for g, p in enumerate(mon.post, 1) if g != early_at)
     if due and not saves:
         rec.violate("checkpoint", "no_checkpoint_although_frequency_reached", fn, **mon.detail(
             checkpoint=ck, first_member_steps=[p[0] for p in mon.post]))
